@@ -27,6 +27,13 @@ package tty
 //              the operation.
 //   activate - as active.
 //   deactivate - nothing outside the grid changes (the grid is only counted).
+//
+// Both shipped consoles report the default colours 7 on 0 and the terminal has
+// no other colours, so with the bare drivers every pixel byte of a cell is
+// 0x00 or 0x80: byte-order and byte-index mistakes in the colour paths would be
+// invisible. In half of the cases the console is therefore handed to the
+// terminal through c18Recolour, which forwards everything to the real driver
+// but reports generated default colours (EGA 0..15).
 
 import (
 	"fmt"
